@@ -118,20 +118,23 @@ def check(an, rep, tier):
                 'caller\'s %s: the accuracy / rank cap falls back to a default'
                 % miss, line=node.lineno)
     fn = prog.func('act_many.add_many')
-    finals = [n for n in ast.walk(fn.node) if isinstance(n, ast.Return)]
-    okf = False
-    for ret in finals:
-        for c in ast.walk(ret):
-            if isinstance(c, ast.Call) and \
-                    (prog.dotted(c.func) or '').endswith('truncate'):
-                names = [a.id for a in c.args if isinstance(a, ast.Name)] + \
-                    [k.value.id for k in c.keywords
-                     if isinstance(k.value, ast.Name)]
-                okf = 'e' in names and 'r' in names
-    rep.add('P-forward', 'act_many.add_many', 'final truncate(Y, e, r)',
-            'ok' if okf else 'violation',
-            '' if okf else 'the final rounding of add_many does not receive '
-            'the caller\'s e and r')
+    # the LAST rounding call of add_many (whether it is returned directly or
+    # through a temporary) receives the caller's e and r
+    tcalls = sorted((c for c in ast.walk(fn.node) if isinstance(c, ast.Call)
+                     and (prog.dotted(c.func) or '').endswith('truncate')),
+                    key=lambda c: c.lineno)
+    if not tcalls:
+        rep.unknown('P-forward', 'act_many.add_many', 'final truncate(Y, e, r)',
+                    'no rounding call found')
+    else:
+        c = tcalls[-1]
+        names = [a.id for a in c.args if isinstance(a, ast.Name)] + \
+            [k.value.id for k in c.keywords if isinstance(k.value, ast.Name)]
+        okf = 'e' in names and 'r' in names
+        rep.add('P-forward', 'act_many.add_many', 'final truncate(Y, e, r)',
+                'ok' if okf else 'violation',
+                '' if okf else 'the final rounding of add_many does not '
+                'receive the caller\'s e and r')
     # --- O-pivot
     fn = prog.func('transformation.truncate')
     mod = fn.module
@@ -172,10 +175,14 @@ def check(an, rep, tier):
     ok = bool(pivots) and all(p == D_ - 1 for p in pivots) and \
         bool(norms) and all(x in (-1, D_ - 1) for x in norms) and \
         any(l == (D_ - 1, 0, -1) for l in loops)
+    found_all = bool(pivots) and bool(norms) and bool(loops) and \
+        all(p is not None for p in pivots) and \
+        all(x is not None for x in norms) and \
+        all(all(z is not None for z in l) for l in loops)
     rep.add('O-pivot', 'transformation.truncate',
             'pivot / norm core / sweep range folded at d=%d: %s / %s / %s'
             % (D_, pivots, norms, loops),
-            'ok' if ok else 'violation',
+            'ok' if ok else ('violation' if found_all else 'unknown'),
             '' if ok else 'the orthogonalisation pivot, the core the norm is '
             'read from and the start of the sweep must all be the last core '
             '(d-1), sweeping down to core 1',
